@@ -81,6 +81,11 @@ CHECKS = {
    note="Trusted: Coq kernel; Model/RefParser.v (tied to the real first-generation parser by exact tree equality on every input of C16/C20 runs); harness serialiser showser.rs. Print Assumptions: closed.",
    technique="Coq proof of parse-print round trip on a reference grammar + differential round trip of the real rebuilder with construct-keyed findings",
    design="5/C20"),
+ "C07": dict(
+   text="Machine-checked proof (Coq) about the resolver's typing gate (resolve_binary_op_type, resolve_unary_op_type, resolve_compared_type, analyze_primitive_cast, analyze_bit_cast, use_function; the VALID_TYPES_FOR_* and conversion tables are regenerated from resolver.rs on every run): every accepted expression tree is well typed at EVERY node at any depth (both operands of a binary operator or comparison have one and the same type of the operator's class, the offset of a pointer advance is a usize, a cast is a type hint or a conversion between two different primitive types of the table), differing operand types give E551, class violations E550, bad casts E552/E553, untyped operands never resolve, a subexpression's errors are never dropped, call arguments must equal the parameter types in number and type (E510/E511/E512). Tie: exhaustive sweep of the real compiler over every operator x 13 x 13 primitive operand types, every comparison, unary operator, cast pair, pointer comparison, pointer-advance offset type, call argument pair and arity, assignment/initialisation/return with different types, plus random nested expressions with mostly-equal variable types: real verdict and codes vs the extracted gate; well-typed generated programs must be accepted and run correctly.",
+   note="Trusted: Coq kernel; translator (tables); hand-written model Model/Resolve.v of the gate on typed trees - the typer that produces the annotations is not modelled: its role is covered by the exhaustive one-node sweep and by execution. The pinned commit violated the property (D30: offset of a pointer advance never checked; refuted in Coq by a witness, repaired by a fix: commit). Print Assumptions: closed.",
+   technique="Coq proof: soundness of the typing gate by structural induction + completeness of each rejection with its code, over translator-generated class tables; exhaustive primitive-type sweep and random nested expressions against the real compiler",
+   design="5/C07"),
 }
 
 NOT_YET = {
